@@ -4,6 +4,7 @@ flock, the real zstd log and real hook scripts (harness/c15_runner.py, worker pr
 Model/Lifecycle.lean (follows the code) and Spec/Lifecycle.lean (what the property demands)."""
 import itertools
 import json
+import time
 import multiprocessing as mp
 import os
 
@@ -187,6 +188,10 @@ def rank_map(vals):
 def impl_final(case, o):
     """the observation of the real run in the driver's `final` syntax (times as dense ranks) + direct findings"""
     direct = []
+    if o.get("skipped"):
+        return None, [], {}
+    if o.get("hang"):
+        return None, ["run-does-not-end"], {}
     if "harness_error" in o:
         return None, ["harness-error"], {}
     t = dict(o.get("tvals", {}))
@@ -544,16 +549,52 @@ class Runner:
         self.workers = workers
 
     def run(self, cases):
+        """all cases in worker processes.  A worker that dies (a changed entry_point() can let a real SIGINT through to the process)
+        breaks the pool; the chunks that did not come back are then run case by case, each in a process of its own, and a case whose
+        process dies or does not return is reported as such."""
         if not cases:
             return []
+        from concurrent.futures import ProcessPoolExecutor, as_completed
+        from concurrent.futures.process import BrokenProcessPool
+
         n = min(self.workers, len(cases))
         chunks = [cases[i::n] for i in range(n)]
-        res = self.pool.map(c15_runner._worker, [(self.src, ch) for ch in chunks])
         out = [None] * len(cases)
-        for w, rs in enumerate(res):
-            for j, r in enumerate(rs):
-                out[w + j * n] = r
+        pending = set(range(n))
+        try:
+            with ProcessPoolExecutor(n, mp_context=mp.get_context("spawn")) as ex:
+                futs = {ex.submit(c15_runner._worker, (self.src, ch)): w for w, ch in enumerate(chunks)}
+                for f in as_completed(futs):
+                    w = futs[f]
+                    for j, r in enumerate(f.result()):
+                        out[w + j * n] = r
+                    pending.discard(w)
+        except BrokenProcessPool:
+            pass
+        for w in sorted(pending):
+            for j, c in enumerate(chunks[w]):
+                out[w + j * n] = self._isolated(c)
         return out
+
+    def _isolated(self, case):
+        ctx = mp.get_context("spawn")
+        a, b = ctx.Pipe(duplex=False)
+        p = ctx.Process(target=c15_runner._one, args=(b, self.src, case))
+        p.start()
+        b.close()
+        res = None
+        try:
+            if a.poll(150):
+                res = a.recv()
+        except (EOFError, OSError):
+            res = None
+        p.join(5)
+        if p.is_alive():
+            p.kill()
+            p.join()
+        if res is None:
+            return {"hang": True, "harness_error": f"the process running entry_point() died or did not return (exit code {p.exitcode})"}
+        return res
 
     def close(self):
         self.pool.terminate()
@@ -573,7 +614,7 @@ def evaluate(ctx, runner, cases):
     for i, (c, o) in enumerate(zip(cases, obs)):
         fin, direct, _t = fins[i]
         if fin is None:
-            out.append((None, model[i], [], direct, ["harness-error"], o))
+            out.append((None, model[i], [], direct, [] if o.get("skipped") else ["harness-error"], o))
             continue
         sv = spec_by[i]
         clauses = [] if sv == "ok" else sv.split(",")
@@ -631,9 +672,10 @@ def simplifications(c):
 def shrink(ctx, runner, case, pred):
     """greedy, fixed order, re-running the implementation on every candidate"""
     cur = case
+    t_end = time.time() + 90
     for _ in range(6):
         cands = list(simplifications(cur))
-        if not cands:
+        if not cands or time.time() > t_end:
             break
         res = evaluate(ctx, runner, cands)
         nxt = next((cand for cand, r in zip(cands, res) if pred(r)), None)
